@@ -73,6 +73,7 @@ func runC04(c *Ctx, tier string) {
 	c.Rule("C04-F1", "the buffer filter is only an over-approximation: CompileBufferFilter's and/or composition (with absent sub-filters), the keyword-search combination and BufferFilter.Eval's operator table are checked exhaustively over the truth table of sound sub-filters")
 	runC04K1(c)
 	runIDCaches(c, "C04-O8", "C04-K2")
+	runCaseFinderFolds(c, "C04-T1")
 	c.Rule("C04-O7", "per-stream type scope is immutable once handed to workers (= C01-O7): the buffer filter resolves a frame's type IDs in the context of the frame's own stream")
 	c.borrow(func(t *Ctx) { runC01(t, "quick") }, map[string]string{"C01-O7": "C04-O7"})
 	runC04P1(c)
